@@ -58,9 +58,10 @@ def c13(ctx: Ctx):
         if rng.random() < 6.0 / 800:
             ctx.samples.append({k: o.get(k) for k in ("c", "verdict1", "after1", "q1", "verdict2", "obs") if k in o})
     ctx.rule = ("product of spec/Gen_C13.tla: 12 body schemas with defaults (flat, nested, object default with nested default, allOf, oneOf, anyOf with "
-                "nested defaults in both branches, array items, readOnly, default next to a failing constraint, allOf next to oneOf/anyOf, strings only) x bodies "
+                "nested defaults in both branches, array items, readOnly, default next to a failing constraint, allOf next to oneOf/anyOf, strings only, oneOf with "
+                "discriminator and mapping / without mapping / under items / under a property) x bodies "
                 "x 6 security/callback behaviours x preset GetBody x SkipSettingDefaults x charset parameter x unsized x white space; x media type "
-                "(problem+json, vnd.api+json, yaml, urlencoded, multipart); + parameter defaults (query/header/cookie x int/str/array x explode) x present "
+                "(problem+json, vnd.api+json, yaml, urlencoded incl. undeclared fields and array fields exploded / explode:false, multipart); + parameter defaults (query/header/cookie x int/str/array x explode) x present "
                 "x skip x other query parameter present; each case validated twice; + spec/Gen_C13H.tla histories: (schema, body) x option slice "
                 "(skip, preset, callback, parameters next to the body none/absent/mixed) x partner request x step sequences over {validate, read+rewind} "
                 "x 2 requests (quick: 5 chosen sequences; thorough: all of length 2..3) + final reads")
